@@ -280,3 +280,234 @@ package limit
 //@   ensures[C20] sampled_once: ncalls("(*core.CommonMetricSampler).Sample") == 1 && callrecv("(*core.CommonMetricSampler).Sample", 0) == l.commonSampler && callarg("(*core.CommonMetricSampler).Sample", 0, 0) == rtt && callarg("(*core.CommonMetricSampler).Sample", 0, 1) == inFlight && callarg("(*core.CommonMetricSampler).Sample", 0, 2) == didDrop
 //@   safety[C04]
 //@   owns[C17]
+
+// ---------------------------------------------------------------------------------------------
+// Gradient2
+//@ ghost Gradient2Limit.cap float64
+//@ type Gradient2Limit
+//@   guarded mu: estimatedLimit, listeners
+//@   immutable: shortRTT, longRTT, maxLimit, minLimit, queueSizeFunc, smoothing, commonSampler, longRTTSampleListener, shortRTTSampleListener, queueSizeSampleListener, logger, registry
+//@   dyntype shortRTT: *measurements.SingleMeasurement
+//@   dyntype longRTT: *measurements.ExponentialAverageMeasurement
+//@   inv[C04] bounds: isFinite(this.estimatedLimit) && float64(this.minLimit) <= this.estimatedLimit && this.estimatedLimit <= this.cap
+//@   inv[C04] cap: isFinite(this.cap) && float64(this.maxLimit) <= this.cap && this.cap <= 1.0e9
+//@   inv cfg: 1 <= this.minLimit && this.minLimit <= this.maxLimit && isFinite(this.smoothing) && 0.0 <= this.smoothing && this.smoothing <= 1.0
+//@   inv[C04] rtts: ref(this.shortRTT) != nil && ref(this.longRTT) != nil && inv(g2Long(this)) && g2Long(this).value >= 0.0 && g2Long(this).sum >= 0.0 && (g2Long(this).count > 0 ==> g2Long(this).lo >= 0.0 && g2Long(this).hi <= 4611686018427387904.0)
+//@   inv deps: this.logger != nil && this.longRTTSampleListener != nil && this.shortRTTSampleListener != nil && this.queueSizeSampleListener != nil
+
+//@ define g2Long(l *limit.Gradient2Limit) *measurements.ExponentialAverageMeasurement = as(l.longRTT, "*measurements.ExponentialAverageMeasurement")
+//@ define g2Short(l *limit.Gradient2Limit) *measurements.SingleMeasurement = as(l.shortRTT, "*measurements.SingleMeasurement")
+//@ define g2Queue(l *limit.Gradient2Limit, est float64) int = apply(l.queueSizeFunc, "limit.Gradient2Limit.queueSizeFunc", int(est))
+
+//@ func limit.Gradient2Limit.queueSizeFunc params limit
+//@   pure
+//@   ensures[C04,C07] allowance: 1 <= result && result <= max(owner.maxLimit, limit)
+
+//@ func NewDefaultGradient2Limit$1
+//@   implements limit.Gradient2Limit.queueSizeFunc
+//@   ensures[C04,C07] value: result == 4
+//@ func NewGradient2Limit$1
+//@   implements limit.Gradient2Limit.queueSizeFunc
+//@   ensures[C04,C07] value: result == 4
+
+//@ func (*Gradient2Limit).EstimatedLimit
+//@   maintains[C04] l
+//@   ensures[C04,C16] value: result == int(l.estimatedLimit) && result >= 1 && result >= l.minLimit
+//@   assigns nothing
+//@   safety[C04]
+//@   owns[C17]
+
+//@ func (*Gradient2Limit).NotifyOnChange
+//@   ensures[C16] registered: appended(l.listeners, old(l.listeners), consumer)
+//@   ensures[C16] limit_unchanged: l.estimatedLimit == old(l.estimatedLimit)
+//@   assigns l.listeners
+//@   owns[C17]
+
+//@ func (*Gradient2Limit).notifyListeners
+//@   requires locked: held(l.mu)
+//@   loop 1 invariant[C16] delivered: -1 <= #rangeindex && #rangeindex < len(l.listeners) && (forall j int :: 0 <= j && j <= #rangeindex ==> l.listeners[j].delivered == newLimit)
+//@   ensures[C16] all_delivered: allDelivered(l.listeners, newLimit)
+//@   assigns all core.LimitChangeListener.delivered
+//@   owns[C17]
+
+//@ func (*Gradient2Limit).OnSample
+//@   requires sample: 0 <= rtt && rtt <= 4611686018427387904 && 0 <= inFlight && inFlight < 1<<31
+//@   maintains[C04,C07] l
+//@   ensures[C07] gate: float64(inFlight) < old(l.estimatedLimit) / 2.0 ==> l.estimatedLimit == old(l.estimatedLimit)
+//@   ensures[C07,C08] update_rule: float64(inFlight) >= old(l.estimatedLimit) / 2.0 ==> l.estimatedLimit == max(float64(l.minLimit), min(float64(l.maxLimit), old(l.estimatedLimit) * (1.0 - l.smoothing) + (old(l.estimatedLimit) * g2Gradient(float64(rtt), g2LongAfterAdd(l, float64(rtt))) + float64(g2Queue(l, old(l.estimatedLimit)))) * l.smoothing))
+//@   ensures[C07] growth: float64(inFlight) >= old(l.estimatedLimit) / 2.0 && rtt > 0 && g2LongAfterAdd(l, float64(rtt)) >= float64(rtt) ==> l.estimatedLimit == max(float64(l.minLimit), min(float64(l.maxLimit), old(l.estimatedLimit) + l.smoothing * float64(g2Queue(l, old(l.estimatedLimit)))))
+//@   ensures[C07,C18] short_is_latest: g2Short(l).value == float64(rtt)
+//@   ensures[C16] notified: int(l.estimatedLimit) != int(old(l.estimatedLimit)) ==> allDelivered(l.listeners, int(l.estimatedLimit))
+//@   ensures[C16] listeners_kept: l.listeners == old(l.listeners)
+//@   ensures[C20] sampled_once: ncalls("(*core.CommonMetricSampler).Sample") == 1 && callrecv("(*core.CommonMetricSampler).Sample", 0) == l.commonSampler && callarg("(*core.CommonMetricSampler).Sample", 0, 0) == rtt && callarg("(*core.CommonMetricSampler).Sample", 0, 1) == inFlight && callarg("(*core.CommonMetricSampler).Sample", 0, 2) == didDrop
+//@   safety[C04]
+//@   owns[C17]
+
+// long-term average right after adding sample x (before the optional 0.9 decay), from the pre-state
+//@ define g2LongAfterAdd(l *limit.Gradient2Limit, x float64) float64 = ite(old(g2Long(l).count) < g2Long(l).warmupWindow, (old(g2Long(l).sum) + x) / float64(old(g2Long(l).count) + 1), old(g2Long(l).value) * (1.0 - 2.0 / float64(g2Long(l).window + 1)) + x * (2.0 / float64(g2Long(l).window + 1)))
+//@ define g2Gradient(short float64, long float64) float64 = ite(short > 0.0, max(0.5, min(1.0, long / short)), 1.0)
+
+// ---------------------------------------------------------------------------------------------
+// WindowedLimit (C09, C04, C16)
+//@ type WindowedLimit
+//@   guarded mu: sample, nextUpdateTime, listeners
+//@   immutable: minWindowTime, maxWindowTime, windowSize, minRTTThreshold, delegate, registry, commonSampler
+//@   inv[C09] window: this.sample != nil && inv(this.sample)
+//@   inv cfg: this.delegate != nil && 1 <= this.minWindowTime && this.minWindowTime <= 1<<61 && 1 <= this.maxWindowTime && this.maxWindowTime <= 1<<61 && 1 <= this.minRTTThreshold
+//@   inv[C09] next: 0 <= this.nextUpdateTime
+
+//@ func minInt64
+//@   inline
+//@ func maxInt64
+//@   inline
+
+//@ func (*WindowedLimit).isWindowReady
+//@   ensures[C09] rule: result <==> (rtt < MaxInt64 && int32(inFlight) > l.windowSize)
+//@   assigns nothing
+
+//@ func (*WindowedLimit).EstimatedLimit
+//@   ensures[C04,C16] delegates: result == l.delegate.est
+//@   assigns nothing
+//@   owns[C17]
+
+//@ func (*WindowedLimit).NotifyOnChange
+//@   ensures[C16] registered_with_delegate: ncallsOn(l.delegate, "core.Limit.NotifyOnChange") == 1 && callarg("core.Limit.NotifyOnChange", 0, 0) == consumer
+//@   ensures[C16] kept_locally: appended(l.listeners, old(l.listeners), consumer)
+//@   owns[C17]
+
+//@ func (*WindowedLimit).OnSample
+//@   requires sample: 0 <= rtt && rtt <= 1<<40 && 0 <= inFlight && inFlight < 1<<31 && 0 <= startTime && startTime <= 1<<61
+//@   requires counters_no_overflow: l.sample.sum <= 1<<61 && l.sample.sampleCount <= 1<<40
+//@   maintains[C04,C09] l
+//@   ensures[C09] fast_leaves_no_trace: rtt < l.minRTTThreshold ==> l.sample == old(l.sample) && l.nextUpdateTime == old(l.nextUpdateTime) && ncalls("core.Limit.OnSample") == 0
+//@   ensures[C09] at_most_one_update: ncalls("core.Limit.OnSample") <= 1
+//@   ensures[C09] update_iff: rtt >= l.minRTTThreshold ==> (ncalls("core.Limit.OnSample") == 1 <==> (startTime + rtt > old(l.nextUpdateTime) && rtt < MaxInt64 && int32(inFlight) > l.windowSize))
+//@   ensures[C09] fold_success: rtt >= l.minRTTThreshold && !didDrop && ncalls("core.Limit.OnSample") == 0 ==> l.sample.minRTT == min(old(l.sample.minRTT), rtt) && l.sample.sum == old(l.sample.sum) + rtt && l.sample.sampleCount == old(l.sample.sampleCount) + 1 && l.sample.maxInFlight == max(old(l.sample.maxInFlight), inFlight) && l.sample.didDrop == old(l.sample.didDrop)
+//@   ensures[C09] fold_drop: rtt >= l.minRTTThreshold && didDrop && ncalls("core.Limit.OnSample") == 0 ==> l.sample.minRTT == old(l.sample.minRTT) && l.sample.sum == old(l.sample.sum) && l.sample.sampleCount == old(l.sample.sampleCount) && l.sample.maxInFlight == max(old(l.sample.maxInFlight), inFlight) && l.sample.didDrop == true
+//@   ensures[C09] delegate_sees_window: ncalls("core.Limit.OnSample") == 1 ==> callrecv("core.Limit.OnSample", 0) == l.delegate && callarg("core.Limit.OnSample", 0, 0) == startTime && callarg("core.Limit.OnSample", 0, 1) == winAvg(old(l.sample.sum), old(l.sample.sampleCount), rtt, didDrop) && callarg("core.Limit.OnSample", 0, 2) == max(old(l.sample.maxInFlight), inFlight) && callarg("core.Limit.OnSample", 0, 3) == (old(l.sample.didDrop) || didDrop)
+//@   ensures[C09] window_restarts: ncalls("core.Limit.OnSample") == 1 ==> fresh(l.sample) && l.sample.sampleCount == 0 && l.sample.sum == 0 && l.sample.didDrop == false && l.sample.maxInFlight == 0 && l.sample.minRTT == MaxInt64 && l.nextUpdateTime == startTime + rtt + min(max(wrap64(winMin(old(l.sample.minRTT), rtt, didDrop) * 2), l.minWindowTime), l.maxWindowTime) && l.nextUpdateTime > startTime + rtt
+//@   ensures[C09] no_update_keeps_period: ncalls("core.Limit.OnSample") == 0 ==> l.nextUpdateTime == old(l.nextUpdateTime)
+//@   ensures[C04] delegate_rtt_nonneg: ncalls("core.Limit.OnSample") == 1 ==> callarg("core.Limit.OnSample", 0, 1) >= 0 && callarg("core.Limit.OnSample", 0, 2) >= 0
+//@   ensures[C20] sampled_once: ncalls("(*core.CommonMetricSampler).Sample") == 1 && callrecv("(*core.CommonMetricSampler).Sample", 0) == l.commonSampler && callarg("(*core.CommonMetricSampler).Sample", 0, 0) == rtt && callarg("(*core.CommonMetricSampler).Sample", 0, 1) == inFlight && callarg("(*core.CommonMetricSampler).Sample", 0, 2) == didDrop
+//@   safety[C04]
+//@   owns[C17]
+
+//@ define winAvg(sum int64, count int, rtt int64, drop bool) int64 = ite(drop, ite(count == 0, 0, sum / count), (sum + rtt) / (count + 1))
+//@ define winMin(m int64, rtt int64, drop bool) int64 = ite(drop, m, min(m, rtt))
+
+// ---------------------------------------------------------------------------------------------
+// TracedLimit
+//@ type TracedLimit
+//@   immutable: limit, logger
+//@   inv deps: this.limit != nil && this.logger != nil
+
+//@ func (*TracedLimit).EstimatedLimit
+//@   maintains l
+//@   ensures[C04,C16] delegates: result == l.limit.est
+//@   ensures[C16] one_read: ncallsOn(l.limit, "core.Limit.EstimatedLimit") == 1
+
+//@ func (*TracedLimit).NotifyOnChange
+//@   maintains l
+//@   ensures[C16] registered_with_delegate: ncallsOn(l.limit, "core.Limit.NotifyOnChange") == 1 && callarg("core.Limit.NotifyOnChange", 0, 0) == consumer
+
+//@ func (*TracedLimit).OnSample
+//@   requires sample: 0 <= rtt && 0 <= inFlight
+//@   maintains l
+//@   ensures[C04,C16] forwards_unchanged: ncalls("core.Limit.OnSample") == 1 && callrecv("core.Limit.OnSample", 0) == l.limit && callarg("core.Limit.OnSample", 0, 0) == startTime && callarg("core.Limit.OnSample", 0, 1) == rtt && callarg("core.Limit.OnSample", 0, 2) == inFlight && callarg("core.Limit.OnSample", 0, 3) == didDrop
+//@   safety[C04]
+
+// ---------------------------------------------------------------------------------------------
+// SettableLimit, FixedLimit
+//@ type SettableLimit
+//@   guarded mu: listeners
+//@   atomic: limit
+//@   immutable: commonSampler
+
+//@ func (*SettableLimit).EstimatedLimit
+//@   ensures[C16] value: result == int(l.limit)
+//@   assigns nothing
+//@   owns[C17]
+
+//@ func (*SettableLimit).NotifyOnChange
+//@   ensures[C16] registered: appended(l.listeners, old(l.listeners), consumer)
+//@   ensures[C16] limit_unchanged: l.limit == old(l.limit)
+//@   assigns l.listeners
+//@   owns[C17]
+
+//@ func (*SettableLimit).notifyListeners
+//@   loop 1 invariant[C16] delivered: -1 <= #rangeindex && #rangeindex < len(l.listeners) && (forall j int :: 0 <= j && j <= #rangeindex ==> l.listeners[j].delivered == newLimit) && held(l.mu)
+//@   ensures[C16] all_delivered: allDelivered(l.listeners, newLimit)
+//@   ensures[C16] listeners_kept: l.listeners == old(l.listeners) && l.limit == old(l.limit)
+//@   assigns all core.LimitChangeListener.delivered
+//@   owns[C17]
+
+//@ func (*SettableLimit).SetLimit
+//@   requires fits: -2147483648 <= limit && limit <= MaxInt32
+//@   ensures[C16] stored: int(l.limit) == limit
+//@   ensures[C16] notified: allDelivered(l.listeners, limit)
+//@   owns[C17]
+
+//@ func (*SettableLimit).OnSample
+//@   ensures[C16] unchanged: l.limit == old(l.limit)
+//@   ensures[C20] sampled_once: ncalls("(*core.CommonMetricSampler).Sample") == 1 && callarg("(*core.CommonMetricSampler).Sample", 0, 0) == rtt && callarg("(*core.CommonMetricSampler).Sample", 0, 1) == inFlight && callarg("(*core.CommonMetricSampler).Sample", 0, 2) == didDrop
+//@   assigns nothing
+//@   owns[C17]
+
+//@ type FixedLimit
+//@   immutable: limit, registry, commonSampler
+
+//@ func NewFixedLimit
+//@   ensures[C19] value: result != nil && result.limit == ite(limit < 0, 10, limit)
+
+//@ func (*FixedLimit).EstimatedLimit
+//@   ensures[C16,C19] constant: result == l.limit
+//@   assigns nothing
+
+//@ func (*FixedLimit).OnSample
+//@   ensures[C16,C19] unchanged: l.limit == old(l.limit)
+//@   ensures[C20] sampled_once: ncalls("(*core.CommonMetricSampler).Sample") == 1 && callarg("(*core.CommonMetricSampler).Sample", 0, 0) == rtt && callarg("(*core.CommonMetricSampler).Sample", 0, 1) == inFlight && callarg("(*core.CommonMetricSampler).Sample", 0, 2) == didDrop
+//@   assigns nothing
+
+//@ func (*FixedLimit).NotifyOnChange
+//@   assigns nothing
+
+// ---------------------------------------------------------------------------------------------
+// Constructors establish the invariants under the valid-configuration predicate.
+//@ func NewVegasLimitWithRegistry
+//@   requires default_measurement: rttNoLoad == nil
+//@   requires cfg: initialLimit <= 1000000000 && maxConcurrency <= 1000000000 && probeMultiplier <= 1000000000 && isFinite(smoothing)
+//@   ghostset result.cap = max(float64(result.maxLimit), result.estimatedLimit)
+//@   establishes[C04,C15] result
+//@   ensures[C04] initial: result != nil && result.estimatedLimit == float64(ite(initialLimit < 1, 20, initialLimit)) && result.maxLimit == ite(maxConcurrency < 0, 1000, maxConcurrency) && result.probeCount == 0 && len(result.listeners) == 0
+//@   ensures[C06,C07,C08] default_functions: (alphaFunc == nil ==> isfunc(result.alphaFunc, "limit.NewVegasLimitWithRegistry$1")) && (betaFunc == nil ==> isfunc(result.betaFunc, "limit.NewVegasLimitWithRegistry$2")) && (thresholdFunc == nil ==> isfunc(result.thresholdFunc, "limit.NewVegasLimitWithRegistry$3")) && (increaseFunc == nil ==> isfunc(result.increaseFunc, "limit.NewVegasLimitWithRegistry$4")) && (decreaseFunc == nil ==> isfunc(result.decreaseFunc, "limit.NewVegasLimitWithRegistry$5"))
+//@   ensures[C06,C07,C08] supplied_functions: (alphaFunc != nil ==> result.alphaFunc == alphaFunc) && (betaFunc != nil ==> result.betaFunc == betaFunc) && (thresholdFunc != nil ==> result.thresholdFunc == thresholdFunc) && (increaseFunc != nil ==> result.increaseFunc == increaseFunc) && (decreaseFunc != nil ==> result.decreaseFunc == decreaseFunc)
+//@   safety[C04]
+
+//@ func NewGradientLimitWithRegistry
+//@   requires cfg: initialLimit <= 1000000000 && maxConcurrency <= 1000000000 && minLimit <= ite(maxConcurrency <= 0, 1000, maxConcurrency) && ite(minLimit < 1, 1, minLimit) <= ite(initialLimit <= 0, 50, initialLimit) && isFinite(smoothing) && isFinite(rttTolerance) && rttTolerance <= 1.0e6 && (probeInterval == -1 || (0 <= probeInterval && probeInterval <= 1<<31))
+//@   ghostset result.cap = max(float64(result.maxLimit), result.estimatedLimit)
+//@   establishes[C04,C15] result
+//@   ensures[C04] initial: result != nil && result.estimatedLimit == float64(ite(initialLimit <= 0, 50, initialLimit)) && result.maxLimit == ite(maxConcurrency <= 0, 1000, maxConcurrency) && result.minLimit == ite(minLimit < 1, 1, minLimit) && len(result.listeners) == 0
+//@   ensures[C07] queue_function: (queueSizeFunc != nil ==> result.queueSizeFunc == queueSizeFunc) && (queueSizeFunc == nil ==> isfunc(result.queueSizeFunc, "limit/functions.SqrtRootFunction$1"))
+//@   safety[C04]
+
+//@ func NewGradient2Limit
+//@   requires cfg: initialLimit <= 1000000000 && maxConurrency <= 1000000000 && minLimit <= 1000000000 && isFinite(smoothing) && 1 <= longWindow && longWindow < 1<<31 && ite(minLimit <= 0, 4, minLimit) <= ite(initialLimit <= 0, 4, initialLimit)
+//@   ghostset ret0.cap = max(float64(ret0.maxLimit), ret0.estimatedLimit)
+//@   ensures[C04] rejects_inverted_bounds: ite(minLimit <= 0, 4, minLimit) > ite(maxConurrency <= 0, 1000, maxConurrency) ==> ret0 == nil && ret1 != nil
+//@   establishes[C04] ret0 != nil ==> ret0
+//@   ensures[C04] initial: ret0 != nil ==> ret1 == nil && ret0.estimatedLimit == float64(ite(initialLimit <= 0, 4, initialLimit)) && ret0.maxLimit == ite(maxConurrency <= 0, 1000, maxConurrency) && ret0.minLimit == ite(minLimit <= 0, 4, minLimit) && len(ret0.listeners) == 0
+//@   safety[C04]
+
+//@ func NewWindowedLimit
+//@   requires cfg: minWindowTime <= 1<<61 && maxWindowTime <= 1<<61 && 1 <= minRTTThreshold
+//@   ensures[C09] rejects: (minWindowTime < 100000000 || maxWindowTime < 100000000 || windowSize < 10 || delegate == nil) ==> ret0 == nil && ret1 != nil
+//@   establishes[C09] ret0 != nil ==> ret0
+//@   ensures[C09] fields: ret0 != nil ==> ret0.delegate == delegate && ret0.minWindowTime == minWindowTime && ret0.maxWindowTime == maxWindowTime && ret0.windowSize == windowSize && ret0.minRTTThreshold == minRTTThreshold && ret0.nextUpdateTime == 0 && ret0.sample.sampleCount == 0 && ret0.sample.didDrop == false
+
+//@ func NewTracedLimit
+//@   ensures[C16] fields: result != nil && result.limit == limit && result.logger == logger
+
+//@ func NewSettableLimit
+//@   requires fits: limit <= MaxInt32
+//@   ensures[C16] fields: result != nil && int(result.limit) == ite(limit < 0, 10, limit) && len(result.listeners) == 0
